@@ -11,11 +11,13 @@ TECH = "Lean 4 theorems over a model tied to the source by generated facts and d
 # property -> (level text, level note)
 CLAIMED = {
     "C01": (
-        "proof (partial): on the Python-faithful model and for ANY agent: the multi-root GETNEXT walk yields only OIDs "
-        "inside a requested root, no OID twice, and is independent of the listing order of the roots; completeness / "
-        "termination / order proved for every sorted database and disjoint roots on the abstract (root,cursor) loop; "
-        "the faithful model is tied to the code by end-to-end trace correspondence (small scope + random, v2c/v3)",
-        "completeness is proved on the abstract loop only: its refinement from the faithful model is sampled; conformant agent semantics are spec-side definitions",
+        "proof: on the Python-faithful Lean model of Client.multiwalk (group_varbinds, get_unfinished_walk_oids, "
+        "deduped_varbinds, multigetnext): completeness + termination against the conformant agent of every strictly "
+        "ascending database, pairwise disjoint roots in any order (C01_complete, by refinement to the abstract "
+        "(root,cursor) loop); nothing outside the roots, nothing twice, order independence for ANY agent; single root "
+        "strictly ascending for ANY agent; the model is tied to the code by end-to-end trace correspondence (small scope "
+        "+ random, v2c/v3)",
+        "the theorems are about the model; the tie to raw.py/util.py is the trace correspondence (sampled); conformant agent semantics are spec-side definitions; codec / v3 framing are C05/C06/C09-C11",
     ),
     "C02": (
         "proof (partial): GETBULK bound = N+M*R proved over the generated expression; on the faithful model and for ANY "
